@@ -24,6 +24,14 @@ def extractedShape (kind : String) : Shape :=
   | "clifbp" => (FBP_worker0.factsWithProducer ReadMultiTrees_go0).shape
   | _ => shapeRecord
 
+open Gotree.Gen.C11 in
+/-- capacity of a channel of the pools, from the regenerated table (`a * threads + b`; `dflt` if the row is missing,
+    which `table_channel_capacities` excludes) -/
+def extractedCap (fn elem : String) (threads dflt : Nat) : Nat :=
+  match chanCaps.find? (fun c => c.1 == fn && c.2.2.1 == elem) with
+  | some c => c.2.2.2.1 * threads + c.2.2.2.2
+  | none => dflt
+
 /-- what the LTS says about the ORDER in which the caller receives the records of a per-item pool with
     `w` workers (`pool_arrival_window`, `pool_single_worker_sequential`): the record of tree `i` is not
     received before `i - w + 1` others; with one worker the order is the order of the stream -/
@@ -169,6 +177,16 @@ def hmOutStr (sorted : Bool) : HM.Out Nat Int → String
     "V" ++ String.join (if sorted then sortStrings cs else cs)
   | .panic => "panic"
 
+/-- the `Taxon tIndex` table of TBE's statistics log: (tip, moved-taxa index) -/
+def parseTaxaTable (log : String) : Option (List (String × Rat)) :=
+  let lines := (log.splitOn "\n").map fun l => l.replace "\r" ""
+  let after := (lines.dropWhile (· != "Taxon\ttIndex")).drop 1
+  let rows := after.takeWhile fun l => l != "" && !l.startsWith "Edge\t"
+  rows.mapM fun l =>
+    match l.splitOn "\t" with
+    | [x, v] => (parseDecimal v).map fun q => (x, q)
+    | _ => none
+
 def handle (op : String) (f : List String) : Verdict :=
   match op, f with
   | "pool", [kind, ths, flags, refS, itemsS, outcome, records, outcome1, records1, race, tookS] =>
@@ -240,7 +258,7 @@ def handle (op : String) (f : List String) : Verdict :=
       let sched := mkSched seed threads (8 * n + 6)
       -- capacity of the input channel: the harness feeds the library pools through an unbuffered channel
       -- (0: rendezvous), the commands read through ReadMultiTrees (buffer of 10)
-      let cap : Nat := if run.cli then 10 else 0
+      let cap : Nat := if run.cli then extractedCap "ReadMultiTrees" "tree.Trees" threads 10 else 0
       let stops : (Nat × Item) → Bool := fun x => x.2.isBad ref
       let indexed := (List.range n).zip items
       if kind == "compare" then
@@ -325,7 +343,7 @@ def handle (op : String) (f : List String) : Verdict :=
         -- from the case), then the normalisation.  For the commands an empty file is a stream of one error item.
         let scheds : Nat → List (Nat × Nat) := fun k => mkSched (seed + k.toUInt64) threads (8 * ref.splits.length + 6)
         let stream := if run.cli && items.isEmpty then [Item.err] else items
-        match tbeCall (extractedShape "tbe") ref threads (threads * 10) scheds stream with
+        match tbeCall (extractedShape "tbe") ref threads (extractedCap "TBE" "*tree.Edge" threads (threads * 10)) scheds stream with
         | .error c =>
           if outcome == "ok" then ⟨.tie, tags, "the model of TBE fails with " ++ c⟩
           else ⟨.pass, "model-tbe-error" :: tags, ""⟩
@@ -336,9 +354,26 @@ def handle (op : String) (f : List String) : Verdict :=
           match parseRatList supS with
           | none => bad "C11.pool tbe records"
           | some sups =>
-            if sups.length == model.length && (List.zip sups model).all (fun (a, m) => if m == NIL then a == NIL else approxAbs a m) then
-              ⟨.pass, "model-tbe" :: tags, ""⟩
-            else ⟨.tie, tags, "model supports " ++ showL (repr model)⟩
+            if !(sups.length == model.length && (List.zip sups model).all (fun (a, m) => if m == NIL then a == NIL else approxAbs a m)) then
+              ⟨.tie, tags, "model supports " ++ showL (repr model)⟩
+            else if kind == "tbe" && flags.contains 'a' && !items.isEmpty then
+              -- the moved-taxa tallies (shared by the workers under the mutex): the `Taxon tIndex` table of the log
+              -- against the pool model of the tallies (Model/C11Tbe.lean `tallyOuter`), values printed with %f
+              let boots := items.filterMap fun it => match it with | .tree t => some t | .err => none
+              let logS := (((records.splitOn "#").drop 1).filter fun p => !p.startsWith "raw:").headD ""
+              match (unescape logS).bind parseTaxaTable,
+                    tallyOuter (extractedShape "tbe") ref ((3 : Rat) / 10) threads (extractedCap "TBE" "*tree.Edge" threads (threads * 10)) scheds boots 0 (tallyAcc0 ref) with
+              | none, _ => bad "C11.pool tbe statistics log"
+              | _, none => ⟨.tie, tags, "model run of the TBE fan-out with tallies does not deliver every branch"⟩
+              | some table, some acc =>
+                let want := taxaTable acc boots.length
+                let ok := table.length == want.length && table.all fun (x, v) =>
+                  match want.find? (·.1 == x) with
+                  | some (_, m) => absR (v - m) ≤ (2 : Rat) / 1000000
+                  | none => false
+                if ok then ⟨.pass, "model-tbe" :: "model-tbe-tallies" :: (tags ++ tagIf (want.any (·.2 != 0)) "moved-taxa-nonzero"), ""⟩
+                else ⟨.tie, tags, "model moved-taxa table " ++ showL (repr want)⟩
+            else ⟨.pass, "model-tbe" :: tags, ""⟩
       else
         let fin := runToEnd (extractedShape kind) (fun x : Nat × Item => x.1) stops threads cap indexed sched
         if !fin.closed || fin.panicked then ⟨.tie, tags, "model run does not end closed"⟩
